@@ -316,8 +316,17 @@ func ruleCacheRecursion(c *Ctx) {
 					}
 				}
 				want := ""
+				var govCmp *ast.BinaryExpr
 				if gov != nil {
-					if be, ok := ast.Unparen(gov.Cond).(*ast.BinaryExpr); ok && be.Op == token.NEQ {
+					// the conflict test itself, possibly one conjunct of the condition (`exists && a != b`)
+					for _, leaf := range flattenBool(gov.Cond, token.LAND) {
+						if be, ok := ast.Unparen(leaf).(*ast.BinaryExpr); ok && be.Op == token.NEQ {
+							govCmp = be
+						}
+					}
+				}
+				if govCmp != nil {
+					if be := govCmp; true {
 						xi, _ := ast.Unparen(be.X).(*ast.Ident)
 						yi, _ := ast.Unparen(be.Y).(*ast.Ident)
 						isIdx := func(id *ast.Ident) bool {
